@@ -209,7 +209,7 @@ Qed.
 
 Lemma encode_members e x ms : as_members x = Some ms ->
   encode e x = rmap (mkArr (Some e))
-                 (if forallb (same_class e) ms then finish (length ms) (enum_to_index ms)
+                 (if forallb (has_member e) ms then finish (length ms) (enum_to_index ms)
                   else Err EType).
 Proof.
   destruct x as [a|l0|l0|l0|n|l0]; cbn [as_members]; intro H; try discriminate.
@@ -315,35 +315,69 @@ Proof.
   - symmetry. apply andb_true_intro. split; [apply Z.leb_le|apply Z.ltb_lt]; lia.
 Qed.
 
-Lemma nth_error_members e k : (k < length (names e))%nat ->
-  nth_error (members e) k = Some (eid e, Z.of_nat k).
+Lemma has_member_iff e m : has_member e m = true <-> designates e m.
 Proof.
-  intro H. unfold members. apply map_nth_error with (f := fun i => (eid e, Z.of_nat i)).
-  rewrite nth_error_seq by exact H. reflexivity.
+  unfold has_member, designates. split.
+  - intro H. apply andb_prop in H. destruct H as [H1 H2]. apply Z.eqb_eq in H1.
+    destruct (nth_error (names e) (midx m)) as [s|]; [|discriminate].
+    apply String.eqb_eq in H2. subst. auto.
+  - intros [H1 H2]. rewrite H1, H2, Z.eqb_refl, String.eqb_refl. reflexivity.
 Qed.
 
-Lemma np_index_members e i : valid_index e i -> np_index (members e) i = Ok (eid e, i).
+Lemma has_member_false e m : ~ designates e m -> has_member e m = false.
 Proof.
-  unfold valid_index, size. intro H. apply np_index_ok; [lia|].
-  rewrite nth_error_members by lia. rewrite Z2Nat.id by lia. reflexivity.
+  intro H. destruct (has_member e m) eqn:E; [|reflexivity]. apply has_member_iff in E. contradiction.
+Qed.
+
+Lemma designates_range e m : designates e m -> valid_index e (Z.of_nat (midx m)).
+Proof.
+  intros [_ H]. unfold valid_index, size.
+  assert ((midx m < length (names e))%nat) by (apply nth_error_Some; congruence). lia.
+Qed.
+
+Lemma nth_error_combine_seq {A} (l : list A) : forall s k x,
+  nth_error l k = Some x -> nth_error (combine l (seq s (length l))) k = Some (x, (s + k)%nat).
+Proof.
+  induction l as [|y l IH]; intros s k x H; [destruct k; discriminate|].
+  destruct k as [|k]; cbn in *.
+  - inversion H. do 2 f_equal. lia.
+  - rewrite (IH (S s) k x H). do 2 f_equal. lia.
+Qed.
+
+Lemma nth_error_members e k s : nth_error (names e) k = Some s ->
+  nth_error (members e) k = Some (mkMem (eid e) k s).
+Proof.
+  intro H. unfold members.
+  apply (map_nth_error (fun p => mkMem (eid e) (snd p) (fst p)) k) with (d := (s, k)).
+  apply (nth_error_combine_seq (names e) 0 k s H).
+Qed.
+
+Lemma np_index_members e i : valid_index e i ->
+  exists m, np_index (members e) i = Ok m /\ member_of_index e i m.
+Proof.
+  unfold valid_index, size. intro H.
+  destruct (nth_error (names e) (Z.to_nat i)) as [s|] eqn:E.
+  - exists (mkMem (eid e) (Z.to_nat i) s). split.
+    + apply np_index_ok; [lia|]. apply nth_error_members. exact E.
+    + unfold member_of_index, designates. cbn. repeat split; auto. lia.
+  - apply nth_error_None in E. lia.
 Qed.
 
 Lemma decode_valid e l : (forall i, In i l -> valid_index e i) ->
-  decode (mkArr (Some e) l) = Ok (map (fun i => (eid e, i)) l).
+  exists ms, decode (mkArr (Some e) l) = Ok ms /\ Forall2 (member_of_index e) l ms.
 Proof.
   intro H. unfold decode. cbn [possible_values indices].
-  apply mapM_ok_map. intros i Hi. apply np_index_members. auto.
+  apply mapM_Forall2. intros i Hi. apply np_index_members. auto.
 Qed.
 
-Lemma decode_to_str_valid e l : (forall i, In i l -> valid_index e i) ->
-  exists ns, decode_to_str (mkArr (Some e) l) = Ok ns /\
-    Forall2 (fun i s => nth_error (names e) (Z.to_nat i) = Some s) l ns.
+(** decode_to_str gives the names of the members decode gives *)
+Lemma decode_to_str_members e l ms : Forall2 (member_of_index e) l ms ->
+  decode_to_str (mkArr (Some e) l) = Ok (map mname ms).
 Proof.
-  intro H. unfold decode_to_str. cbn [possible_values indices].
-  apply mapM_Forall2. intros i Hi. specialize (H i Hi). unfold valid_index, size in H.
-  destruct (nth_error (names e) (Z.to_nat i)) as [s|] eqn:E.
-  - exists s. split; [|reflexivity]. apply np_index_ok; [lia|exact E].
-  - apply nth_error_None in E. lia.
+  unfold decode_to_str. cbn [possible_values indices].
+  induction 1 as [|i m l ms [[_ Hn] Hi] _ IH]; cbn [mapM map]; [reflexivity|].
+  rewrite (np_index_ok (names e) i (mname m)); [|lia|subst i; rewrite Nat2Z.id; exact Hn].
+  rewrite IH. reflexivity.
 Qed.
 
 Lemma decode_to_str_names e l idx :
@@ -355,72 +389,84 @@ Proof.
   rewrite (np_index_ok _ _ _ Hz Hs). rewrite IH. reflexivity.
 Qed.
 
-(** ** Round trips *)
-
-Lemma names_of_members e l idx :
-  Forall2 (fun s z => 0 <= z /\ nth_error (names e) (Z.to_nat z) = Some s) l idx ->
-  Forall2 (fun s m => member_name e m = Some s) l (map (fun i => (eid e, i)) idx).
+Lemma F2_members_forall e l ms : Forall2 (member_of_index e) l ms -> forall m, In m ms -> designates e m.
 Proof.
-  induction 1 as [|s z l idx [Hz Hs] _ IH]; cbn [map]; constructor; [|exact IH].
-  unfold member_name. cbn [fst snd]. rewrite Z.eqb_refl.
-  replace (0 <=? z) with true by (symmetry; apply Z.leb_le; exact Hz). exact Hs.
+  induction 1 as [|i m l ms [Hd _] _ IH]; intros m' Hm; [contradiction|].
+  destruct Hm as [<-|Hm]; [exact Hd|apply IH; exact Hm].
 Qed.
+
+(** ** Round trips *)
 
 Theorem decode_encode_indices_lemma : forall e x l,
   as_ints x = Some l -> (forall i, In i l -> valid_index e i) ->
-  exists a ns, encode e x = Ok a /\ possible_values a = Some e /\ indices a = l /\
-    decode a = Ok (map (fun i => (eid e, i)) l) /\
-    decode_to_str a = Ok ns /\
-    Forall2 (fun i s => nth_error (names e) (Z.to_nat i) = Some s) l ns.
+  exists a ms, encode e x = Ok a /\ possible_values a = Some e /\ indices a = l /\
+    decode a = Ok ms /\ Forall2 (member_of_index e) l ms /\
+    decode_to_str a = Ok (map mname ms).
 Proof.
   intros e x l Hx Hl. rewrite (encode_ints e x l Hx).
   rewrite (int_to_index_valid e l Hl). rewrite finish_ok by reflexivity. cbn [rmap].
-  destruct (decode_to_str_valid e l Hl) as [ns [H1 H2]].
-  exists (mkArr (Some e) l), ns. repeat split; auto. apply decode_valid. exact Hl.
+  destruct (decode_valid e l Hl) as [ms [H1 H2]].
+  exists (mkArr (Some e) l), ms. repeat split; auto. apply decode_to_str_members. exact H2.
+Qed.
+
+Lemma names_back e l idx : 
+  Forall2 (fun s z => 0 <= z /\ nth_error (names e) (Z.to_nat z) = Some s) l idx ->
+  forall ms, Forall2 (member_of_index e) idx ms -> map mname ms = l.
+Proof.
+  induction 1 as [|s z l idx [Hz Hs] _ IH]; intros ms F; inversion F; subst; cbn [map]; [reflexivity|].
+  f_equal; [|apply IH; assumption].
+  match goal with H : member_of_index e _ _ |- _ => destruct H as [[_ Hn] Hi] end.
+  subst z. rewrite Nat2Z.id in Hs. congruence.
 Qed.
 
 Theorem decode_encode_names_lemma : forall e x l,
   NoDup (names e) -> as_names x = Some l -> (forall s, In s l -> In s (names e)) ->
   exists a ms, encode e x = Ok a /\ possible_values a = Some e /\
     decode_to_str a = Ok l /\ decode a = Ok ms /\
-    Forall2 (fun s m => member_name e m = Some s) l ms.
+    map mname ms = l /\ (forall m, In m ms -> designates e m).
 Proof.
   intros e x l Hnd Hx Hl. rewrite (encode_names e x l Hx).
   destruct (str_to_index_valid e l Hnd Hl) as [idx [Hi F]]. rewrite Hi. cbn [bind].
   rewrite finish_ok by (symmetry; eapply F2_length; eauto). cbn [rmap].
-  exists (mkArr (Some e) idx), (map (fun i => (eid e, i)) idx).
+  assert (Hv : forall z, In z idx -> valid_index e z).
+  { intros z Hz. unfold valid_index, size.
+    destruct (F2_in_r _ _ _ _ F Hz) as [s [_ [H0 Hn]]].
+    assert ((Z.to_nat z < length (names e))%nat) by (apply nth_error_Some; congruence). lia. }
+  destruct (decode_valid e idx Hv) as [ms [H1 H2]].
+  exists (mkArr (Some e) idx), ms.
   split; [reflexivity|]. split; [reflexivity|]. split; [apply decode_to_str_names; exact F|].
-  split.
-  - apply decode_valid. intros z Hz. unfold valid_index, size.
-    destruct (F2_in_r _ _ _ _ F Hz) as [s [_ [H0 Hn]]] .
-    assert ((Z.to_nat z < length (names e))%nat) by (apply nth_error_Some; congruence). lia.
-  - apply names_of_members. exact F.
+  split; [exact H1|]. split; [eapply names_back; eauto|eapply F2_members_forall; eauto].
+Qed.
+
+Lemma members_back e ms : (forall m, In m ms -> designates e m) ->
+  forall ms', Forall2 (member_of_index e) (enum_to_index ms) ms' -> ms' = ms.
+Proof.
+  induction ms as [|m ms IH]; intros Hd ms' F; cbn [enum_to_index map] in F.
+  - inversion F. reflexivity.
+  - inversion F as [|i m' idx' ms'' Hm' F']; subst. f_equal.
+    + destruct Hm' as [[H1 H2] H3].
+      destruct (Hd m (or_introl eq_refl)) as [H4 H5].
+      apply Nat2Z.inj in H3. destruct m as [c i n], m' as [c' i' n']. cbn in *. subst. congruence.
+    + apply IH; [|exact F']. intros m0 H0. apply Hd. right. exact H0.
 Qed.
 
 Theorem decode_encode_members_lemma : forall e x ms,
-  as_members x = Some ms -> (forall m, In m ms -> fst m = eid e /\ valid_index e (snd m)) ->
-  exists a ns, encode e x = Ok a /\ possible_values a = Some e /\ decode a = Ok ms /\
-    decode_to_str a = Ok ns /\ Forall2 (fun m s => member_name e m = Some s) ms ns.
+  as_members x = Some ms -> (forall m, In m ms -> designates e m) ->
+  exists a, encode e x = Ok a /\ possible_values a = Some e /\ decode a = Ok ms /\
+    decode_to_str a = Ok (map mname ms).
 Proof.
   intros e x ms Hx Hm. rewrite (encode_members e x ms Hx).
-  replace (forallb (same_class e) ms) with true.
-  2:{ symmetry. apply forallb_forall. intros m H. unfold same_class. apply Z.eqb_eq.
-      apply (Hm m H). }
-  unfold enum_to_index. rewrite finish_ok by apply map_length. cbn [rmap].
-  assert (Hv : forall i, In i (map snd ms) -> valid_index e i).
-  { intros i Hi. apply in_map_iff in Hi. destruct Hi as [m [<- Hi]]. apply (Hm m Hi). }
-  destruct (decode_to_str_valid e (map snd ms) Hv) as [ns [H1 H2]].
-  exists (mkArr (Some e) (map snd ms)), ns.
-  split; [reflexivity|]. split; [reflexivity|]. split; [|split; [exact H1|]].
-  - rewrite (decode_valid e _ Hv). f_equal. rewrite map_map.
-    rewrite <- (map_id ms) at 2. apply map_ext_in. intros [c i] Hc. cbn [snd].
-    destruct (Hm _ Hc) as [Hf _]. cbn [fst] in Hf. subst c. reflexivity.
-  - clear H1 Hv Hx. revert ns H2. induction ms as [|m ms IH]; intros ns H2; cbn [map] in H2;
-      inversion H2; subst; constructor.
-    + destruct (Hm m (or_introl eq_refl)) as [Hf [Hv0 _]].
-      unfold member_name. rewrite Hf, Z.eqb_refl.
-      replace (0 <=? snd m) with true by (symmetry; apply Z.leb_le; exact Hv0). assumption.
-    + apply IH; [|assumption]. intros m' H'. apply Hm. right. exact H'.
+  replace (forallb (has_member e) ms) with true.
+  2:{ symmetry. apply forallb_forall. intros m H. apply has_member_iff. auto. }
+  rewrite finish_ok by (unfold enum_to_index; apply map_length). cbn [rmap].
+  assert (Hv : forall i, In i (enum_to_index ms) -> valid_index e i).
+  { intros i Hi. unfold enum_to_index in Hi. apply in_map_iff in Hi. destruct Hi as [m [<- Hi]].
+    apply designates_range. auto. }
+  destruct (decode_valid e _ Hv) as [ms' [H1 H2]].
+  pose proof (members_back e ms Hm ms' H2). subst ms'.
+  exists (mkArr (Some e) (enum_to_index ms)).
+  split; [reflexivity|]. split; [reflexivity|]. split; [exact H1|].
+  apply decode_to_str_members. exact H2.
 Qed.
 
 Theorem encode_idempotent_lemma : forall e e' x a,
@@ -447,18 +493,14 @@ Proof.
     inversion H'; subst. cbn. auto.
 Qed.
 
-Lemma members_branch_valid e l ms idx :
-  all_enums l = Some ms ->
-  (if forallb (same_class e) ms then finish (length l) (enum_to_index ms) else Err EType) = Ok idx ->
-  (forall m, In (EMem m) l -> fst m = eid e -> valid_index e (snd m)) ->
-  length idx = length l /\ forall i, In i idx -> valid_index e i.
+Lemma members_branch_valid e len ms idx :
+  (if forallb (has_member e) ms then finish len (enum_to_index ms) else Err EType) = Ok idx ->
+  length idx = len /\ forall i, In i idx -> valid_index e i.
 Proof.
-  intros Hms H Hwf. destruct (forallb (same_class e) ms) eqn:E; [|discriminate].
+  intros H. destruct (forallb (has_member e) ms) eqn:E; [|discriminate].
   apply finish_inv in H. destruct H as [-> Hlen]. split; [exact Hlen|].
   intros i Hi. unfold enum_to_index in Hi. apply in_map_iff in Hi. destruct Hi as [m [<- Hm]].
-  apply Hwf; [eapply all_enums_mem; eauto|].
-  rewrite forallb_forall in E. specialize (E m Hm). unfold same_class in E.
-  apply Z.eqb_eq. exact E.
+  rewrite forallb_forall in E. apply designates_range. apply has_member_iff. auto.
 Qed.
 
 Lemma str_branch_valid e ss len idx :
@@ -480,10 +522,9 @@ Qed.
 
 Lemma encode_array_like_valid e l idx :
   encode_array_like e l = Ok idx ->
-  (forall m, In (EMem m) l -> fst m = eid e -> valid_index e (snd m)) ->
   length idx = length l /\ forall i, In i idx -> valid_index e i.
 Proof.
-  unfold encode_array_like. intros H Hwf.
+  unfold encode_array_like. intros H.
   destruct (all_ints l) as [zs|]; [eapply int_branch_valid; eauto|].
   destruct (all_strs l) as [ss|]; [eapply str_branch_valid; eauto|].
   destruct (all_enums l) as [ms|] eqn:E; [|discriminate].
@@ -491,10 +532,10 @@ Proof.
 Qed.
 
 Lemma core_valid e x idx :
-  (forall b, x <> Encoded b) -> wf_members e x -> core e x = Ok idx ->
+  (forall b, x <> Encoded b) -> core e x = Ok idx ->
   length idx = input_len x /\ forall i, In i idx -> valid_index e i.
 Proof.
-  intros Hx Hwf H. destruct x as [a|l|l|l|n|l]; cbn [core encode_array input_len] in *.
+  intros Hx H. destruct x as [a|l|l|l|n|l]; cbn [core encode_array input_len] in *.
   - exfalso. eapply Hx. reflexivity.
   - eapply int_branch_valid; eauto.
   - eapply str_branch_valid; eauto.
@@ -505,31 +546,27 @@ Proof.
 Qed.
 
 Theorem encode_total_valid_lemma : forall e x a,
-  (forall b, x <> Encoded b) -> wf_members e x -> encode e x = Ok a ->
+  (forall b, x <> Encoded b) -> encode e x = Ok a ->
   possible_values a = Some e /\ length (indices a) = input_len x /\
   forall i, In i (indices a) -> valid_index e i.
 Proof.
-  intros e x a Hx Hwf H. destruct (encode_inv e x a Hx H) as [Hp [[H0 Hi]|[H0 Hc]]].
+  intros e x a Hx H. destruct (encode_inv e x a Hx H) as [Hp [[H0 Hi]|[H0 Hc]]].
   - split; [exact Hp|]. rewrite Hi, H0. split; [reflexivity|]. intros i [].
   - split; [exact Hp|]. apply core_valid; assumption.
 Qed.
 
 (** ... hence decodes, to members of this enumeration, one per input element *)
 Theorem encoded_decodes_lemma : forall e x a,
-  (forall b, x <> Encoded b) -> wf_members e x -> encode e x = Ok a ->
-  exists ms ns, decode a = Ok ms /\ decode_to_str a = Ok ns /\
-    length ms = input_len x /\ length ns = input_len x /\
-    forall m, In m ms -> fst m = eid e /\ valid_index e (snd m).
+  (forall b, x <> Encoded b) -> encode e x = Ok a ->
+  exists ms, decode a = Ok ms /\ decode_to_str a = Ok (map mname ms) /\
+    length ms = input_len x /\ Forall2 (member_of_index e) (indices a) ms.
 Proof.
-  intros e x a Hx Hwf H.
-  destruct (encode_total_valid_lemma e x a Hx Hwf H) as [Hp [Hlen Hv]].
+  intros e x a Hx H.
+  destruct (encode_total_valid_lemma e x a Hx H) as [Hp [Hlen Hv]].
   destruct a as [pv idx]. cbn [possible_values indices] in *. subst pv.
-  destruct (decode_to_str_valid e idx Hv) as [ns [H1 H2]].
-  exists (map (fun i => (eid e, i)) idx), ns.
-  split; [apply decode_valid; exact Hv|]. split; [exact H1|].
-  split; [rewrite map_length; exact Hlen|].
-  split; [rewrite <- (F2_length _ _ _ H2); exact Hlen|].
-  intros m Hm. apply in_map_iff in Hm. destruct Hm as [i [<- Hi]]. cbn. auto.
+  destruct (decode_valid e idx Hv) as [ms [H1 H2]].
+  exists ms. split; [exact H1|]. split; [apply decode_to_str_members; exact H2|].
+  split; [rewrite <- (F2_length _ _ _ H2); exact Hlen|exact H2].
 Qed.
 
 (** ** Invalid inputs are rejected, class by class *)
@@ -552,13 +589,12 @@ Proof.
 Qed.
 
 Theorem foreign_member_rejected_lemma : forall e x ms m,
-  as_members x = Some ms -> In m ms -> fst m <> eid e -> encode e x = Err EType.
+  as_members x = Some ms -> In m ms -> ~ designates e m -> encode e x = Err EType.
 Proof.
   intros e x ms m Hx Hm Hf. rewrite (encode_members e x ms Hx).
-  replace (forallb (same_class e) ms) with false; [reflexivity|].
-  symmetry. destruct (forallb (same_class e) ms) eqn:E; [|reflexivity].
-  rewrite forallb_forall in E. specialize (E m Hm). unfold same_class in E.
-  apply Z.eqb_eq in E. contradiction.
+  replace (forallb (has_member e) ms) with false; [reflexivity|].
+  symmetry. destruct (forallb (has_member e) ms) eqn:E; [|reflexivity].
+  rewrite forallb_forall in E. specialize (E m Hm). apply has_member_iff in E. contradiction.
 Qed.
 
 Lemma nonempty_len {A} (l : list A) y : In y l -> Nat.eqb (length l) 0 = false.
@@ -591,14 +627,13 @@ Qed.
 
 Lemma members_branch_invalid e l ms y :
   all_enums l = Some ms -> In y l -> elem_invalid e y ->
-  (if forallb (same_class e) ms then finish (length l) (enum_to_index ms) else Err EType) = Err EType.
+  (if forallb (has_member e) ms then finish (length l) (enum_to_index ms) else Err EType) = Err EType.
 Proof.
   intros Hms Hy Hinv. destruct (all_of_in _ _ _ _ Hms Hy) as [m [E Hm]].
   destruct y; cbn in E; try discriminate. inversion E; subst. cbn in Hinv.
-  replace (forallb (same_class e) ms) with false; [reflexivity|].
-  symmetry. destruct (forallb (same_class e) ms) eqn:F; [|reflexivity].
-  rewrite forallb_forall in F. specialize (F m Hm). unfold same_class in F.
-  apply Z.eqb_eq in F. contradiction.
+  replace (forallb (has_member e) ms) with false; [reflexivity|].
+  symmetry. destruct (forallb (has_member e) ms) eqn:F; [|reflexivity].
+  rewrite forallb_forall in F. specialize (F m Hm). apply has_member_iff in F. contradiction.
 Qed.
 
 Lemma encode_array_like_invalid e l y :
